@@ -317,6 +317,14 @@ def r3_foreign_raises(m, ctx):
                     tag = None
             elif fname in PRINTERS:
                 tag = "D2 printer guard on node state (dead by match/printer shape agreement, see C01.R2)"
+                proof = prove_printer_guard_dead(m, ctx, f, tests)
+                if proof is True:
+                    tags["D2-proved"] = tags.get("D2-proved", 0) + 1
+                elif proof is False:
+                    r.ob(False)
+                    r.fail("%s|%s|live-guard" % (f.qualname, exc), "%s raises %s under `%s`, and some matcher of a class printed by it can "
+                           "produce a node for which that guard is true" % (f.qualname, exc, A.text(tests[0])[:50] if tests else "?"), m.loc(f, n))
+                    continue
             elif tests and all(is_type_test(t) for t in tests):
                 tag = "D1 pure type/identity guard"
             elif any("_checking_enabled" in A.text(t) for t in tests):
@@ -337,6 +345,56 @@ def r3_foreign_raises(m, ctx):
                 r.undet("%s: raise %s [%s]" % (f.qualname, exc, gtxt[:80]))
     r.notes.append("discharge tags: %s" % sorted(tags.items()))
     return r
+
+
+_SHAPES = {}
+
+
+def prove_printer_guard_dead(m, ctx, f, tests):
+    """True: every class printed by f returns only shapes for which all guards are false; False: some determinate shape makes
+    a length guard true; None: not decidable (element truthiness of input text, open shapes)."""
+    from sa import shapes as SH
+    from sa.callgraph import CallGraph
+    if id(m) not in _SHAPES:
+        _SHAPES[id(m)] = SH.Shapes(m, ctx.cg)
+    S = _SHAPES[id(m)]
+    users = [k for k in m.classes if m.issub(k, ctx.base) and any(m.method(k, nm) is f for nm in PRINTERS)]
+    if not users or len(tests) != 1:
+        return None
+    t = tests[0]
+    verdict = True
+    for k in users:
+        mf = m.method(k, "match")
+        if mf is None:
+            continue
+        ss = S.of_func(mf)
+        if not ss.shapes:
+            verdict = None
+            continue
+        ar = ss.arities()
+        txt = A.text(t).replace(" ", "")
+        import re as _re
+        mlen = _re.fullmatch(r"(not)?len\(self\.items\)(!=|==)(\d+)", txt)
+        mitem = _re.fullmatch(r"notself\.items\[(\d+)\]", txt)
+        if mlen:
+            neg, op, n = mlen.group(1), mlen.group(2), int(mlen.group(3))
+            truth_for = lambda a: ((a != n) if op == "!=" else (a == n)) != bool(neg)
+            if any(truth_for(a) for a in ar):
+                return False if not ss.open else None
+            if ss.open:
+                verdict = None
+        elif mitem:
+            i = int(mitem.group(1))
+            from rules.shapes_rules import flat_kinds
+            kinds = set()
+            for sh in ss.shapes:
+                if i < len(sh):
+                    kinds |= flat_kinds(sh[i])
+            if not kinds or not all(isinstance(x, tuple) and x[0] in ("node", "pnode") or (isinstance(x, tuple) and x[0] == "lit" and x[1]) for x in kinds):
+                verdict = None
+        else:
+            verdict = None
+    return verdict
 
 
 def _is_ctor_result(m, ctx, f, test):
